@@ -23,10 +23,18 @@ Proof.
   destruct (forallb is_digit (c :: b)); reflexivity.
 Qed.
 
-Lemma plain_token_not_bang k s c rest : s = 33%N :: c :: rest -> plain_token k s = None.
+(* a string that reads as a temporary id is not an ordinary identifier of the harness *)
+Lemma plain_token_not_numeral k c rest n : numeral_value rest = Some n -> plain_token k (33%N :: c :: rest) = None.
 Proof.
-  intros ->. unfold plain_token. destruct (N.eqb_spec 33%N (idletter k)) as [E|]; [|reflexivity].
-  destruct k; cbn [idletter] in E; discriminate.
+  intros Hn. unfold plain_token.
+  assert (G : (if N.eqb 33 (idletter k) then
+                 match canonical_token (c :: rest) with Some n0 => if bang_named n0 then None else Some n0 | None => None end
+               else None) = None).
+  { destruct (N.eqb_spec 33%N (idletter k)) as [E|]; [|reflexivity]. destruct k; cbn [idletter] in E; discriminate. }
+  destruct rest as [|c2 r']; [exact G|].
+  destruct (N.eqb_spec c2 120) as [->|Hne].
+  - unfold numeral_value in Hn. cbn in Hn. discriminate.
+  - destruct c2 as [|p]; [exact G|]. do 7 (destruct p as [p|p|]; try exact G). contradiction.
 Qed.
 
 Theorem lookup_str_spec {X} (k : kind) (l : list (option X)) (idof : X -> option nat) (m : idmap) (s : list N) :
@@ -42,17 +50,15 @@ Proof.
   destruct s' as [|c rest]; [cbn [temp_resolve]; apply Hplain|].
   unfold temp_resolve.
   destruct (N.eqb_spec c0 33) as [E0|N0]; cbn [andb]; [|apply Hplain].
-  subst c0. destruct (N.eqb c (letter k)).
-  2:{ rewrite (plain_token_not_bang k _ c rest eq_refl). reflexivity. }
-  rewrite parse_usize_numeral. destruct (numeral_value rest) as [n|].
-  2:{ rewrite (plain_token_not_bang k _ c rest eq_refl). reflexivity. }
+  subst c0. destruct (N.eqb c (letter k)); [|apply Hplain].
+  rewrite parse_usize_numeral. destruct (numeral_value rest) as [n|] eqn:Hnum; [|apply Hplain].
   destruct (n <? 18446744073709551616)%N eqn:E64.
   - destruct (n <? width k)%N eqn:Ew.
     + unfold exists_slot. destruct (N.ltb n (N.of_nat (length l))); [|reflexivity].
       destruct (slot l (N.to_nat n)); reflexivity.
     + apply N.ltb_ge in Ew. assert (Hn : N.ltb n (N.of_nat (length l)) = false) by (apply N.ltb_ge; lia).
-      rewrite Hn, (plain_token_not_bang k _ c rest eq_refl). reflexivity.
+      rewrite Hn, (plain_token_not_numeral k c rest n Hnum). reflexivity.
   - apply N.ltb_ge in E64. assert (Hn : N.ltb n (N.of_nat (length l)) = false).
     { apply N.ltb_ge. destruct k; cbn [width] in Hlen; lia. }
-    rewrite Hn, (plain_token_not_bang k _ c rest eq_refl). reflexivity.
+    rewrite Hn, (plain_token_not_numeral k c rest n Hnum). reflexivity.
 Qed.
